@@ -820,6 +820,30 @@ def run_property(pid, tier, seed):
         import extra
         unknown += [(c, {'out': None}, fl) for c, fl in extra.python_threshold_probe(res, seed)]
         unknown += [(c, {'out': None}, fl) for c, fl in extra.builder_order_probe(res, seed)]
+    def evaluate_candidates(muts, tag):
+        """implementation + model + oracles + known-finding classes on extra candidate inputs; failing ones join `unknown`"""
+        for i_, m_ in enumerate(muts):
+            m_['id'] = i_
+        impl2 = runner.run_impl(muts)
+        model2 = runner.run_model(muts, impl2) if st['driver_ok'] else {}
+        nfound = 0
+        for m_ in muts:
+            r2 = impl2.get(m_['id'])
+            if r2 is None or 'harness_panic' in r2:
+                continue
+            mm2 = model2.get(m_['id'])
+            v2 = r2.get('verdicts', {})
+            if mm2 is not None and 'no_merge' in mm2 and isinstance(v2, dict):
+                v2['k1_merge'] = (mm2['no_merge'] == '0')
+            for fl in fails_of(m_, r2):
+                k = known_for(pid, m_, r2, fl, st)
+                if k == 'K2' and mm2 is not None and r2.get('out') is not None and mm2.get('out') not in (None, '!ERR') \
+                        and mm2.get('out') != runner.ser_cps(r2['out']) and not k2_on_model(mm2['out'], fl.get('t')):
+                    k = None
+                if not k:
+                    unknown.append((m_, r2, fl)); nfound += 1
+            impl[(tag, m_['id'])] = r2
+        return nfound
     # the correspondence broke but no generated input violates the property: search AROUND the inputs on which
     # implementation and model differ (they exercise the changed code) — add/remove/extend words, same options
     diff_cases = (diff_out + diff_cases)[:40]
@@ -849,28 +873,46 @@ def run_property(pid, tier, seed):
                         W.pop(lrnd.randrange(len(W)))
                 muts.append({'tcs': W, 'f': c['f'], 'mr': c.get('mr', 1), 'ms': c.get('ms', 1), 'alpha': 'local-search',
                              'lang': bool(spec.get('lang')), 'lang_anchor': pid == 'C08'})
-        for i_, m_ in enumerate(muts):
-            m_['id'] = i_
-        impl2 = runner.run_impl(muts)
-        model2 = runner.run_model(muts, impl2) if st['driver_ok'] else {}
-        nfound = 0
-        for m_ in muts:
-            r2 = impl2.get(m_['id'])
-            if r2 is None or 'harness_panic' in r2:
-                continue
-            mm2 = model2.get(m_['id'])
-            v2 = r2.get('verdicts', {})
-            if mm2 is not None and 'no_merge' in mm2 and isinstance(v2, dict):
-                v2['k1_merge'] = (mm2['no_merge'] == '0')
-            for fl in fails_of(m_, r2):
-                k = known_for(pid, m_, r2, fl, st)
-                if k == 'K2' and mm2 is not None and r2.get('out') is not None and mm2.get('out') not in (None, '!ERR') \
-                        and mm2.get('out') != runner.ser_cps(r2['out']) and not k2_on_model(mm2['out'], fl.get('t')):
-                    k = None
-                if not k:
-                    unknown.append((m_, r2, fl)); nfound += 1
-            impl[('ls', m_['id'])] = r2
+        nfound = evaluate_candidates(muts, 'ls')
         res['stats']['local_search'] = {'around_cases': len(diff_cases), 'mutants': len(muts), 'failing_inputs_found': nfound}
+    # native bounded-exhaustive hunt (harness `grexv hunt`): sibling-branch families and small subsets, judged in-process;
+    # every hit goes through implementation + model + known-finding classes like any generated case. Runs when the tie of a
+    # structure stage is broken and nothing so far violates the property, and always in the thorough tier.
+    structure = bool(set(spec['stages']) & {'trie', 'min', 'expr', 'final'}) and not spec.get('runner') and spec.get('special') != 'c09'
+    if structure and ((diff_cases and not unknown) or tier == 'thorough'):
+        after_break = bool(diff_cases and not unknown)
+        hcfgs = []
+        budget = 25 if tier == 'quick' else 90
+        for fl_ in ((['r'] if 'r' in spec['flags'] else []) + ([] if 'r' in spec.get('force', []) else [''])):
+            hcfgs.append({'family': 'sib', 'alpha': 'ab', 'f': fl_, 'oracle': 'unmatched', 'budget_s': budget, 'maxlen': 3, 'kmax': 3, 'max_hits': 6})
+            hcfgs.append({'family': 'sib', 'alpha': 'abc', 'f': fl_, 'oracle': 'unmatched', 'budget_s': budget, 'maxlen': 3, 'kmax': 2, 'max_hits': 6})
+            if fl_ == '' and spec.get('lang'):
+                hcfgs.append({'family': 'sub', 'alpha': 'ab', 'f': '', 'oracle': 'lang', 'budget_s': budget, 'maxlen': 3, 'kmax': 4, 'max_hits': 6})
+        # the options of the inputs on which implementation and model differ come first
+        seenf = set((h['f']) for h in hcfgs)
+        for c in diff_cases[:3]:
+            if c['f'] not in seenf and 'c' not in c['f'].split(',') and 'E' not in c['f'].split(','):
+                seenf.add(c['f'])
+                only_sound = any(x in c['f'].split(',') for x in ('r', 'ns', 'ne', 'i'))
+                hcfgs.insert(0, {'family': 'sib', 'alpha': 'ab', 'f': c['f'], 'mr': c.get('mr', 1), 'ms': c.get('ms', 1),
+                                 'oracle': 'unmatched' if only_sound or not spec.get('lang') else 'lang', 'budget_s': budget, 'maxlen': 3, 'kmax': 3, 'max_hits': 6})
+        hstats = []
+        hmuts = []
+        for hc in hcfgs:
+            rc, outm, err = runner.sh([runner.GREXV, 'hunt'], inp=(json.dumps(hc) + '\n').encode(), timeout=budget * 4 + 60)
+            try:
+                hr = json.loads([l for l in outm.splitlines() if l.startswith('{')][-1])
+            except Exception:
+                hstats.append({'config': hc, 'error': (err or outm)[-300:]}); continue
+            hstats.append({k: hr.get(k) for k in ('family', 'alpha', 'f', 'oracle', 'evaluated', 'exhaustive', 'elapsed_s')} | {'hits': len(hr.get('hits', []))})
+            for h in hr.get('hits', [])[:6]:
+                hmuts.append({'tcs': h['tcs'], 'f': hc['f'], 'mr': hc.get('mr', 1), 'ms': hc.get('ms', 1), 'alpha': 'hunt-' + hc['family'],
+                              'lang': bool(spec.get('lang')), 'lang_anchor': pid == 'C08'})
+            if hmuts and after_break:
+                break
+        nh = evaluate_candidates(hmuts, 'hunt') if hmuts else 0
+        res['stats']['native_hunt'] = {'after_break': after_break, 'runs': hstats, 'hits_rejudged': len(hmuts), 'failing_inputs_found': nh,
+                                       'evaluated': sum(h.get('evaluated') or 0 for h in hstats)}
     res['stats'].update({'undecided_lang': undecided, 'engine_inconsistencies': incons, 'known_class_failures': known_counts})
     # distribution
     keys = set(); nontriv = set(); flagc = {}; alph = {}
@@ -981,7 +1023,7 @@ def finish(pid, res):
         'samples': res.get('samples', [])[:5] + [{'theorem': n, 'statement': thm[n]['statement'][:400], 'assumptions': thm[n]['assumptions']} for n in names[:6]],
         'theorems': {n: thm[n] for n in names},
         'correspondence': {'cases_compared': stats.get('compared', 0), 'stages': spec.get('stages'), 'stage_disagreements': stats.get('stage_diffs', {}),
-                           'local_search_after_break': stats.get('local_search')},
+                           'local_search_after_break': stats.get('local_search'), 'native_hunt': stats.get('native_hunt')},
         'oracle': {'unknown_failures': res.get('unknown_failures', 0), 'known_class_failures': stats.get('known_class_failures', {}),
                    'undecided_language_queries': stats.get('undecided_lang', 0), 'engine_inconsistencies': stats.get('engine_inconsistencies', 0)},
         'distribution': {k: stats.get(k) for k in ('flags', 'alphabets', 'selfcheck', 'sizes', 'corpus', 'distinct')},
